@@ -21,7 +21,7 @@ def sh(cmd, cwd=None, timeout=3000):
 
 
 def clean():
-    sh('git checkout -- . && git clean -fdq -e MUT1 -e MUT2 -e MUT3 -e target', cwd=wt)
+    sh('git checkout -- . && git clean -fdq -e MUT1 -e MUT2 -e MUT3 -e MUT4 -e target', cwd=wt)
 
 
 def test_names():
@@ -85,7 +85,7 @@ else:
     try:
         for c in checks:
             t = time.time()
-            rc, out = sh(envp + './check %s' % c, cwd='/verif')
+            rc, out = sh(envp + './check %s' % c, cwd=os.environ.get('VERIF_HOME', '/verif'))
             lines = [l for l in out.split('\n') if l.startswith(('VIOLATED', 'INCONCLUSIVE ', 'VIOLATION'))]
             det[c] = {'exit': rc, 'wall_s': round(time.time() - t), 'lines': [l[:300] for l in lines[:4]]}
             print('  check %s exit=%d %ds %s' % (c, rc, time.time() - t, ' | '.join(l[:140] for l in lines[:2])), flush=True)
